@@ -399,6 +399,16 @@ pub fn gen_inputs(cfg: &RunCfg) -> Vec<(String, String)> {
             out.push(("multibyte".into(), s));
         }
     }
+    // (3b) a syntax error *after* multi-byte characters (in strings, comments, at line ends): offsets, lines and
+    // the excerpt of the report are computed behind them
+    for mb in ["5€", "ëë", "語", "€5", "Zoë", "\u{1F600}x", "ü", "aé語€\u{1F600}"] {
+        for reps in [1usize, 2, 3, 5] {
+            for bad in ["Bad ::= SEQUENCE { a INTEGER,, }", "Bad ::= INTEGER (0..", "bad INTEGER ::= §", "Bad ::= CHOICE { }"] {
+                let strings: String = (0..reps).map(|i| format!("v{i} UTF8String ::= \"{mb}\"\n")).collect();
+                out.push(("multibyte-then-error".into(), format!("M DEFINITIONS ::= BEGIN\n{strings}-- {mb} {mb}\nOk ::= BOOLEAN -- {mb}\n{bad}\nEND\n")));
+            }
+        }
+    }
     // (4) byte soup
     let frags = [
         "A", "b", " ", "\n", "::=", "{", "}", "(", ")", "[", "]", ",", "..", "...", "INTEGER", "SEQUENCE", "OF", "BEGIN", "END", "DEFINITIONS", "--", "/*", "*/", "\"", "'", "H", "B", "0", "9", "-", "&", "@", ".", ":", "|", "^", "<", "ü", "語", "\u{0}", "\t", "\r", "CLASS", "MACRO", "WITH SYNTAX", "TIME", "REAL", "CHOICE", "ENUMERATED", "IMPORTS", "FROM", ";", "!", "#", "$", "\\",
